@@ -247,6 +247,13 @@ impl<'a> Ref<'a> {
 		let names = ref_desc_names(d)?;
 		Some(self.class_fn(a, b, &names).and_then(|f| ref_desc(d, &f)))
 	}
+	/// the documented scanner on ANY string with the row-level class map; outer None: some scanned name has several counterparts
+	fn scan(&self, a: usize, b: usize, d: &S) -> Option<Option<S>> {
+		let ambiguous = std::cell::Cell::new(false);
+		let f = |n: &S| { let v = self.class_cands(a, b, n); if v.len() > 1 { ambiguous.set(true); } Some(v.into_iter().next().unwrap_or_else(|| n.clone())) };
+		let out = ref_scan(d, &f);
+		if ambiguous.get() { None } else { Some(out) }
+	}
 	/// what the rows of class `c` (name in `from`) declare for the key; Err(()) = cannot tell (ambiguous / malformed row)
 	fn declared(&self, method: bool, c: &S, k: &Key) -> Result<Vec<Key>, ()> {
 		let rows: Vec<&MClass> = self.m.classes.iter().filter(|r| r.names[self.from].as_ref() == Some(c) && r.names[self.to].is_some()).collect();
@@ -332,13 +339,14 @@ impl<'a> Ref<'a> {
 			Q::ClassAny(c) => {
 				if c.first() == Some(&('[' as u32)) {
 					// array class names are array field descriptors
-					if o_field(c).is_none() { return Want::Unspecified; }
+					// outside the grammar: the documented scanner (copy, `L` name `;`, Err on `L;` / missing `;`)
+					if o_field(c).is_none() { return match self.scan(self.from, self.to, c) { Some(x) => Want::Exactly(Ans::RStr(x)), None => Want::Unspecified }; }
 					match self.desc(self.from, self.to, c) { Some(Some(d)) => Want::Exactly(Ans::RStr(Some(d))), _ => Want::Unspecified }
 				} else { one(self.class(c).into_iter().map(|x| Ans::RStr(Some(x))).collect()) }
 			}
 			Q::Desc(kind, d) => {
 				let in_grammar = match kind { 0 => o_field(d).is_some(), 1 => o_method(d).is_some(), _ => o_return(d).is_some() };
-				if !in_grammar { return Want::Unspecified; }
+				if !in_grammar { return match self.scan(self.from, self.to, d) { Some(x) => Want::Exactly(Ans::RStr(x)), None => Want::Unspecified }; }
 				match self.desc(self.from, self.to, d) { Some(Some(x)) => Want::Exactly(Ans::RStr(Some(x))), _ => Want::Unspecified }
 			}
 			Q::FieldFail(o, k) | Q::MethodFail(o, k) => {
@@ -371,9 +379,151 @@ impl<'a> Ref<'a> {
 		let Some(v) = self.member_fail(method, o, k).ok()? else { return Some(None) };
 		if !v.is_empty() { return Some(Some(v)); }
 		let in_grammar = if method { o_method(&k.1).is_some() } else { o_field(&k.1).is_some() };
-		if !in_grammar { return None; }
+		// outside the grammar the fall-back is the documented scanner's answer (Err on `L;` / a missing `;`)
+		if !in_grammar { return match self.scan(self.from, self.to, &k.1)? { Some(d) => Some(Some(vec![(k.0.clone(), d)])), None => Some(None) }; }
 		let d = self.desc(self.from, self.to, &k.1)??;
 		Some(Some(vec![(k.0.clone(), d)]))
+	}
+}
+
+
+// =====================================================================================
+// round 5: the scanner on ALL strings, the traits as such (a hand-written implementor whose
+// map_class_fail may fail, wrapped in ARemapperAsBRemapper), JarSuperProv::remap by itself
+// =====================================================================================
+
+/// Independent reference for `map_desc` on ANY string (the documented behaviour: every `L` starts a class name that
+/// runs up to the next `;`, must not be empty; a missing `;` or an `L;` is an error; everything else is copied).
+/// Position/slice based; `f` = None means the class map fails on that name.
+fn ref_scan(d: &[u32], f: &dyn Fn(&S) -> Option<S>) -> Option<S> {
+	let mut out: S = vec![];
+	let mut rest = d;
+	loop {
+		let Some(i) = rest.iter().position(|&c| c == 'L' as u32) else { out.extend_from_slice(rest); return Some(out); };
+		out.extend_from_slice(&rest[..=i]);
+		let after = &rest[i + 1..];
+		let j = after.iter().position(|&c| c == ';' as u32)?;
+		if j == 0 { return None; }
+		out.extend(f(&after[..j].to_vec())?);
+		out.push(';' as u32);
+		rest = &after[j + 1..];
+	}
+}
+
+/// Independent reference for JarSuperProv::remap: per provider, entries in order; the key and every super type through
+/// the class map; a key that is already there keeps its place and takes the new super types; a super type that is
+/// already listed is not listed again.  None = the class map fails on some name.
+fn ref_remap(provs: &[Vec<(S, Vec<S>)>], f: &dyn Fn(&S) -> Option<S>) -> Option<Vec<Vec<(S, Vec<S>)>>> {
+	let mut out = vec![];
+	for p in provs {
+		let mut q: Vec<(S, Vec<S>)> = vec![];
+		for (k, ss) in p {
+			let mut set: Vec<S> = vec![];
+			for x in ss { let y = f(x)?; if !set.contains(&y) { set.push(y); } }
+			let k2 = f(k)?;
+			match q.iter().position(|(a, _)| *a == k2) { Some(i) => q[i].1 = set, None => q.push((k2, set)) }
+		}
+		out.push(q);
+	}
+	Some(out)
+}
+
+/// a hand-written ARemapper whose map_class_fail fails on the names of `bad` (like the implementor in the crate's
+/// own test module, which fails on names that are not UTF-8), else answers with the first pair of the table
+struct FailingRemapper { tbl: Vec<(S, S)>, bad: Vec<S> }
+impl ARemapper for FailingRemapper {
+	fn map_class_fail(&self, class: &ObjClassNameSlice) -> anyhow::Result<Option<ObjClassName>> {
+		let c = cps(class.as_inner());
+		if self.bad.contains(&c) { anyhow::bail!("this remapper does not like {:?}", class); }
+		Ok(self.tbl.iter().find(|(k, _)| *k == c).map(|(_, v)| class_name(v)))
+	}
+}
+
+fn trait_stream(r: &mut Report, rng: &mut Rng, n: usize) {
+	let mut names: Vec<S> = ["A", "B", "A$1", "A$B", "p/A", "L", "LL", "Ü", "bad", "bad$1", "x/bad", "U", "java/lang/Object"].iter().map(|x| s(x)).collect();
+	names.push(vec![0xD83D]); names.push(vec![0x10400, '$' as u32, 0xDC00]);
+	for _ in 0..n {
+		let mut tbl: Vec<(S, S)> = vec![];
+		for _ in 0..rng.below(5) { tbl.push((rng.pick(&names[..]).clone(), s(*rng.pick(&["X", "q/Y", "A", "L", "名/π", "A$1", "Z$L"][..])))); }
+		let mut bad: Vec<S> = vec![];
+		for _ in 0..rng.below(3) { bad.push(rng.pick(&names[..]).clone()); }
+		let fmap = |c: &S| -> Option<S> { if bad.contains(c) { None } else { Some(tbl.iter().find(|(k, _)| k == c).map(|(_, v)| v.clone()).unwrap_or_else(|| c.clone())) } };
+		let ffail = |c: &S| -> Option<Option<S>> { if bad.contains(c) { None } else { Some(tbl.iter().find(|(k, _)| k == c).map(|(_, v)| v.clone())) } };
+		let inner = FailingRemapper { tbl: tbl.clone(), bad: bad.clone() };
+		let provs: Vec<Vec<(S, Vec<S>)>> = (0..rng.range(1, 2)).map(|_| {
+			let mut p: Vec<(S, Vec<S>)> = vec![];
+			for _ in 0..rng.below(4) { let k = rng.pick(&names[..]).clone(); if p.iter().all(|(a, _)| *a != k) { let mut ss: Vec<S> = vec![]; for _ in 0..rng.below(4) { let x = rng.pick(&names[..]).clone(); if !ss.contains(&x) { ss.push(x); } } p.push((k, ss)); } }
+			p }).collect();
+		let replay = |what: &str| format!("property C06\nwhat: {what}\nhand-written ARemapper: map_class_fail fails on {:?}, else first pair of {:?}; wrapped in ARemapperAsBRemapper\nproviders: {:?}\n",
+			bad.iter().map(|x| show(x)).collect::<Vec<_>>(), tbl.iter().map(|(k, v)| (show(k), show(v))).collect::<Vec<_>>(),
+			provs.iter().map(|p| p.iter().map(|(k, ss)| (show(k), ss.iter().map(|x| show(x)).collect::<Vec<_>>())).collect::<Vec<_>>()).collect::<Vec<_>>());
+		fbh::report::crumb(&replay("the process died inside a default method of ARemapper / BRemapper"));
+		// ---- JarSuperProv::remap through the failing remapper ----
+		let jp = build_provs(&provs);
+		let got = match guarded(AssertUnwindSafe(|| JarSuperProv::remap(&inner, &jp).ok().map(|v| prov_lists(&v)))) {
+			Ok(x) => x, Err(p) => { r.violation(format!("JarSuperProv::remap panicked: {p}"), replay("JarSuperProv::remap panicked")); continue; } };
+		let want = ref_remap(&prov_lists(&jp), &fmap);
+		r.count(if got.is_some() { "trait_stream_remap_ok" } else { "trait_stream_remap_err" });
+		if got != want {
+			let sh = |x: &Option<Vec<Vec<(S, Vec<S>)>>>| match x { None => "Err".to_string(), Some(v) => format!("{:?}", v.iter().map(|p| p.iter().map(|(k, ss)| (show(k), ss.iter().map(|x| show(x)).collect::<Vec<_>>())).collect::<Vec<_>>()).collect::<Vec<_>>()) };
+			let what = format!("JarSuperProv::remap = {}, but sending every key and every super type through map_class gives {}", sh(&got), sh(&want));
+			r.violation(what.clone(), replay(&what));
+		}
+		let g_ps = g_provs(&prov_lists(&jp));
+		let g_got = gres(got.as_ref().map(|v| g_provs(v)));
+		// ---- every default method, through ARemapperAsBRemapper ----
+		let wrapped = quill::remapper::ARemapperAsBRemapper(inner);
+		let mut out: Vec<String> = vec![];
+		let desc = |rng: &mut Rng| -> S { match rng.below(5) { 0 => s(*rng.pick(&BAD_DESCS[..])), 1 => gen_mdesc(rng, &names), 2 => { let mut d = gen_mdesc(rng, &names); if !d.is_empty() { let j = rng.below(d.len()); d.remove(j); } d } _ => gen_fdesc(rng, &names) } };
+		for _ in 0..rng.range(6, 14) {
+			let c = if rng.chance(1, 5) { let mut a = vec!['[' as u32; rng.range(1, 2)]; a.push('L' as u32); a.extend(rng.pick(&names[..]).clone()); a.push(';' as u32); a } else { rng.pick(&names[..]).clone() };
+			let is_arr = c.first() == Some(&('[' as u32));
+			let k: Key = (s(*rng.pick(&MNAMES[..])), desc(rng));
+			let member = |k: &Key| -> Option<Key> { ref_scan(&k.1, &fmap).map(|d| (k.0.clone(), d)) };
+			match rng.below(9) {
+				0 if !is_arr => {
+					let js = jstring(&c);
+					let got = match guarded(AssertUnwindSafe(|| wrapped.map_class(obj(&js)).ok().map(|x| cps(x.as_inner())))) { Ok(x) => x, Err(p) => { r.violation(format!("map_class panicked: {p}"), replay("map_class panicked")); continue; } };
+					if got != fmap(&c) { let what = format!("hand-written remapper: map_class({}) = {:?}, its map_class_fail says {:?}", show(&c), got.as_ref().map(|x| show(x)), ffail(&c).map(|o| o.map(|x| show(&x)))); r.violation(what.clone(), replay(&what)); }
+					out.push(format!("QClassR {} {}", gstr(&c), gres(got.as_ref().map(|x| gstr(x)))));
+				}
+				1 if !is_arr => {
+					let js = jstring(&c);
+					let got = match guarded(AssertUnwindSafe(|| wrapped.map_class_fail(obj(&js)).ok().map(|x| x.map(|x| cps(x.as_inner()))))) { Ok(x) => x, Err(p) => { r.violation(format!("map_class_fail panicked: {p}"), replay("map_class_fail panicked")); continue; } };
+					if got != ffail(&c) { let what = format!("ARemapperAsBRemapper::map_class_fail({}) = {:?}, the wrapped remapper's map_class_fail says {:?}", show(&c), got.as_ref().map(|o| o.as_ref().map(|x| show(x))), ffail(&c).map(|o| o.map(|x| show(&x)))); r.violation(what.clone(), replay(&what)); }
+					out.push(format!("QClassFailR {} {}", gstr(&c), gres(got.as_ref().map(|o| gopt(o.as_ref().map(|x| gstr(x)))))));
+				}
+				q => {
+					let q = match q {
+						0 | 1 | 2 => Q::ClassAny(c.clone()),
+						3 => Q::Desc(rng.below(3) as u8, k.1.clone()),
+						4 => if rng.chance(1, 2) { Q::FieldFail(c.clone(), k.clone()) } else { Q::MethodFail(c.clone(), k.clone()) },
+						5 => if rng.chance(1, 2) { Q::Field(c.clone(), k.clone()) } else { Q::Method(c.clone(), k.clone()) },
+						6 => Q::FieldRef(c.clone(), k.clone()),
+						7 => Q::MethodRef(c.clone(), k.clone()),
+						_ => Q::MethodRefObj(c.clone(), k.clone()),
+					};
+					// the other methods take an object class name
+					if is_arr && !matches!(q, Q::ClassAny(_) | Q::MethodRef(..) | Q::Desc(..)) { continue; }
+					let a = match eval_b(&wrapped, &q) { Ok(a) => a, Err(p) => { r.violation(format!("{} failed: {p}", show_q(&q)), replay(&show_q(&q))); continue; } };
+					let want: Ans = match &q {
+						Q::ClassAny(c) => Ans::RStr(if is_arr { ref_scan(c, &fmap) } else { fmap(c) }),
+						Q::Desc(_, d) => Ans::RStr(ref_scan(d, &fmap)),
+						Q::FieldFail(..) | Q::MethodFail(..) => Ans::ROptKey(Some(None)),
+						Q::Field(_, k) | Q::Method(_, k) => Ans::RKey(member(k)),
+						Q::FieldRef(o, k) | Q::MethodRefObj(o, k) => Ans::RKey3(member(k).and_then(|k2| fmap(o).map(|c2| (c2, k2)))),
+						Q::MethodRef(o, k) => Ans::RKey3(if is_arr { ref_scan(o, &fmap).map(|c2| (c2, k.clone())) } else { member(k).and_then(|k2| fmap(o).map(|c2| (c2, k2))) }),
+						_ => unreachable!(),
+					};
+					r.count("trait_stream_query");
+					if matches!(a, Ans::RStr(None) | Ans::RKey(None) | Ans::RKey3(None)) { r.count("trait_stream_answer_err"); }
+					if a != want { let what = format!("hand-written remapper in ARemapperAsBRemapper: {} = {}, the default methods over its map_class_fail give {}", show_q(&q), show_ans(&a), show_ans(&want)); r.violation(what.clone(), replay(&what)); }
+					out.push(g_query(&q, &a));
+				}
+			}
+		}
+		r.eval(&format!("T{:?}|{:?}|{}", tbl, bad, out.join(";")), !tbl.is_empty());
+		r.case("traits", format!("CT {} {} {} {g_ps} {g_got}", glist(tbl.iter().map(|(k, v)| gpair(gstr(k), gstr(v)))), glist(bad.iter().map(|x| gstr(x))), glist(out)));
 	}
 }
 
@@ -659,7 +809,7 @@ fn run_world<const N: usize>(r: &mut Report, w: &World) -> anyhow::Result<()> {
 			}
 			// the same table as a BRemapper without member tables
 			let wrapped = quill::remapper::ARemapperAsBRemapper(ra);
-			for q in w.queries.iter().filter(|q| matches!(q, Q::Field(..) | Q::Method(..) | Q::FieldFail(..) | Q::MethodFail(..))).take(5) {
+			for q in w.queries.iter().filter(|q| matches!(q, Q::Field(..) | Q::Method(..) | Q::FieldFail(..) | Q::MethodFail(..) | Q::FieldRef(..) | Q::MethodRef(..) | Q::MethodRefObj(..))).take(8) {
 				match eval_b(&wrapped, q) {
 					Err(p) => r.violation(format!("ARemapperAsBRemapper::{} failed: {p}", show_q(q)), replay_text(w, &inh, &show_q(q))),
 					Ok(a) => {
@@ -671,6 +821,18 @@ fn run_world<const N: usize>(r: &mut Report, w: &World) -> anyhow::Result<()> {
 								let what = format!("ARemapperAsBRemapper::{} = {}, expected the unchanged name with descriptor {}", show_q(q), show_ans(&a), show(&d));
 								r.violation(what.clone(), replay_text(w, &inh, &what)); } } }
 						}
+						// the *_ref methods: the class through map_class / map_class_any, the member as above
+						if let (Q::FieldRef(o, k) | Q::MethodRef(o, k) | Q::MethodRefObj(o, k), Ans::RKey3(got)) = (q, &a) {
+							let is_arr = o.first() == Some(&('[' as u32));
+							let in_grammar = if matches!(q, Q::FieldRef(..)) { o_field(&k.1).is_some() } else { o_method(&k.1).is_some() };
+							let want = if is_arr { if o_field(o).is_some() { rf.desc(w.from, w.to, o).flatten().map(|c| (c, k.clone())) } else { None } }
+								else if in_grammar { let cs = rf.class(o); match (cs.len(), rf.desc(w.from, w.to, &k.1).flatten()) { (1, Some(d)) => Some((cs[0].clone(), (k.0.clone(), d))), _ => None } } else { None };
+							if let Some(want) = want { if *got != Some(want.clone()) {
+								let what = format!("ARemapperAsBRemapper::{} = {}, expected {} (class mapped, name kept, descriptor rewritten)", show_q(q), show_ans(&a), show_ans(&Ans::RKey3(Some(want))));
+								r.violation(what.clone(), replay_text(w, &inh, &what)); } }
+						}
+						if let (Q::FieldFail(..) | Q::MethodFail(..), Ans::ROptKey(got)) = (q, &a) { if *got != Some(None) {
+							let what = format!("ARemapperAsBRemapper::{} = {}, expected Ok(None)", show_q(q), show_ans(&a)); r.violation(what.clone(), replay_text(w, &inh, &what)); } }
 						out.push(g_query(q, &a));
 					}
 				}
@@ -720,6 +882,12 @@ fn run_world<const N: usize>(r: &mut Report, w: &World) -> anyhow::Result<()> {
 					if let Some(&first) = decl.first() {
 						if first == 0 { r.count("hit_declared_by_owner"); } else { r.count("hit_inherited"); }
 						if first > 0 && !has_entry(o) { r.count("hit_inherited_owner_without_entry"); }
+						// the owner's own row carries the key with a source name but WITHOUT a target name: it must not hide the inherited name
+						if first > 0 && w.m.classes.iter().any(|row| row.names[w.from].as_ref() == Some(o) && row.names[w.to].is_some() && {
+							let members: Vec<(&S, &NamesRow)> = if method { row.methods.iter().map(|m| (&m.desc, &m.names)).collect() } else { row.fields.iter().map(|f| (&f.desc, &f.names)).collect() };
+							members.iter().any(|(d0, names)| names[w.from].as_ref() == Some(&k.0) && names[w.to].is_none() && rf.desc(0, w.from, d0).flatten().as_ref() == Some(&k.1)) }) {
+							r.count("hit_inherited_past_owner_row_without_target_name");
+						}
 						if first > 1 && pre[1..first].iter().any(|c| !has_entry(c)) { r.count("hit_inherited_through_class_without_entry"); }
 						if decl.iter().any(|&i| pre[i] != pre[first]) { r.count("hit_shadowing_other_declaring_types_later_in_preorder"); }
 						if pre.len() > pre.iter().collect::<std::collections::HashSet<_>>().len() { r.count("hit_in_diamond_preorder_with_repeats"); }
@@ -732,6 +900,23 @@ fn run_world<const N: usize>(r: &mut Report, w: &World) -> anyhow::Result<()> {
 	}
 	r.eval(&canon, hits > 0);
 	r.count(&format!("queries_per_world_{}", (w.queries.len() / 10) * 10));
+	// ---- the same tables with NoSuperClassProvider: only the owner's own table answers ----
+	if w.queries.len() % 3 == 0 && !w.big {
+		match guarded(AssertUnwindSafe(|| qm.remapper_b(from, to, NoSuperClassProvider::new()))) {
+			Ok(Ok(rb_ns)) => {
+				let rf_ns = Ref { m: &w.m, from: w.from, to: w.to, inh: &[] };
+				let mut out_ns = vec![];
+				for q in w.queries.iter().filter(|q| !matches!(q, Q::Class(_) | Q::ClassFail(_) | Q::ClassAny(_) | Q::Desc(..))).take(10) {
+					match eval_b(&rb_ns, q) {
+						Err(p) => r.violation(format!("BRemapperImpl over NoSuperClassProvider::{} failed: {p}", show_q(q)), replay_text(w, &[], &show_q(q))),
+						Ok(a) => { judge(r, w, &[], &rf_ns, q, &a, "BRemapperImpl over NoSuperClassProvider"); r.count("queries_against_NoSuperClassProvider"); out_ns.push(g_query(q, &a)); }
+					}
+				}
+				r.case(stream, format!("CN {} {} {} {}", g_mappings(&w.m), w.from, w.to, glist(out_ns)));
+			}
+			_ => r.violation("remapper_b(from, to, NoSuperClassProvider) failed although remapper_b(from, to, providers) succeeded".into(), replay_text(w, &inh, "remapper_b(.., NoSuperClassProvider) failed")),
+		}
+	}
 	// ---- X -> Y -> X on the implementation ----
 	let coh = member_desc_law(r, w, &inh, &rf, &rb);
 	fbh::report::crumb(&replay_text(w, &inh, "the process died (stack overflow / abort / endless loop) on the way back: JarSuperProv::remap through the forward remapper, remapper_b(to, from) on the remapped providers, or a query against it"));
@@ -873,6 +1058,23 @@ fn roundtrip<const N: usize>(r: &mut Report, w: &World, qm: &Mappings<N, NsAny>,
 	let none = ("[]".to_string(), "[]".to_string());
 	let (x, y) = (w.from, w.to);
 	let Ok(Ok(provs_y)) = guarded(AssertUnwindSafe(|| JarSuperProv::remap(rb, provs))) else { r.violation("JarSuperProv::remap failed".into(), replay_text(w, inh, "JarSuperProv::remap failed")); return none; };
+	// JarSuperProv::remap by itself: every key and every listed super type is map_class of the original one, whether
+	// or not the key has a mapping (judged when the reference knows the counterpart of every name involved)
+	{
+		let rfc = Ref { m: &w.m, from: x, to: y, inh: &[] };
+		let lists = prov_lists(provs);
+		if lists.iter().all(|p| p.iter().all(|(k, ss)| rfc.class(k).len() == 1 && ss.iter().all(|c| rfc.class(c).len() == 1))) {
+			let f = |c: &S| Some(rfc.class(c)[0].clone());
+			let want = ref_remap(&lists, &f).unwrap();
+			let got = prov_lists(&provs_y);
+			r.count("remap_provs_oracle");
+			if got != want {
+				let sh = |v: &Vec<Vec<(S, Vec<S>)>>| format!("{:?}", v.iter().map(|p| p.iter().map(|(k, ss)| (show(k), ss.iter().map(|x| show(x)).collect::<Vec<_>>())).collect::<Vec<_>>()).collect::<Vec<_>>());
+				let what = format!("JarSuperProv::remap(remapper {x} -> {y}) = {}, but the key and every super type of every entry sent through the class map give {}", sh(&got), sh(&want));
+				r.violation(what.clone(), replay_text(w, inh, &what));
+			}
+		} else { r.count("remap_provs_oracle_skipped_ambiguous_names"); }
+	}
 	let (Ok(nx), Ok(ny)) = (Namespace::<N>::new(x), Namespace::<N>::new(y)) else { return none };
 	let back = match guarded(AssertUnwindSafe(|| qm.remapper_b(ny, nx, &provs_y))) { Ok(Ok(b)) => b, _ => { r.violation("remapper_b(to, from) failed although remapper_b(from, to) succeeded".into(), replay_text(w, inh, "remapper_b(to, from) failed")); return none; } };
 	// the same tables without any inheritance information (C06_roundtrip: directly declared members come back whatever the providers are)
@@ -1253,7 +1455,7 @@ pub fn run(ctx: &Ctx) -> anyhow::Result<Report> {
 	let mut r = Report::new("C06", "C06.Run");
 	r.shard_size = 300;
 	let mut rng = Rng::new(ctx.seed);
-	r.rule = "worlds = (mapping set with 2-4 namespaces and partial rows, from/to in all positions incl. from = to, one or two JarSuperProv providers: chains, diamonds, random DAGs, classes without rows, super types without entries) x up to ~60 queries (every member key under every name it carries in `from` against every class, near misses, class / array / descriptor queries). Streams: injective names; overlapping (every namespace draws its class and member names from the same pool, injectively per namespace: A -> B, B -> C, half with complete rows, >= 3 namespaces in half of them); colliding names (violates the round-trip hypotheses); cyclic (one or two extra edges: self loops, back edges, cycles behind a declaring class); towers of 2..64 diamonds (2^k paths) with keys declared at the bottom, in one right branch, at the top, nowhere, a quarter with a cycle from the bottom; malformed row descriptors (remapper_b must fail); generic mapmodel mappings; fixed worlds (unmapped owner; three namespaces in four from/to combinations; names that are a permutation of one another, both directions); map_desc through a hand-written table remapper with arbitrary class maps. A world is non-trivial when at least one member query was answered from a table; distinct by (mappings, from, to, providers).".into();
+	r.rule = "worlds = (mapping set with 2-4 namespaces and partial rows, from/to in all positions incl. from = to, one or two JarSuperProv providers: chains, diamonds, random DAGs, classes without rows, super types without entries) x up to ~60 queries (every member key under every name it carries in `from` against every class, near misses, class / array / descriptor queries). Streams: injective names; overlapping (every namespace draws its class and member names from the same pool, injectively per namespace: A -> B, B -> C, half with complete rows, >= 3 namespaces in half of them); colliding names (violates the round-trip hypotheses); cyclic (one or two extra edges: self loops, back edges, cycles behind a declaring class); towers of 2..64 diamonds (2^k paths) with keys declared at the bottom, in one right branch, at the top, nowhere, a quarter with a cycle from the bottom; malformed row descriptors (remapper_b must fail); generic mapmodel mappings; fixed worlds (unmapped owner; three namespaces in four from/to combinations; names that are a permutation of one another, both directions); map_desc through a hand-written table remapper with arbitrary class maps (judged on ALL strings by a reference scanner); traits: a hand-written ARemapper whose map_class_fail fails on some names, wrapped in ARemapperAsBRemapper, every default method of both traits and JarSuperProv::remap through it; a third of the worlds also through remapper_b(.., NoSuperClassProvider). A world is non-trivial when at least one member query was answered from a table; distinct by (mappings, from, to, providers).".into();
 
 	run_any(&mut r, &world_f5())?;
 	for (from, to) in [(1, 2), (2, 1), (1, 0), (0, 2)] { run_any(&mut r, &world_three_ns(from, to))?; }
@@ -1314,7 +1516,9 @@ pub fn run(ctx: &Ctx) -> anyhow::Result<Report> {
 	// map_desc with arbitrary class maps (targets may be empty, contain `;` or `L`)
 	let alpha = s("LL;;[()IVa/$");
 	for i in 0..(if ctx.thorough { 20000 } else { 2000 }) {
-		let keys: Vec<S> = ["a", "L", "La", "a/b", "LL", "A$B", "I", "Ü"].iter().map(|x| s(x)).collect();
+		let mut keys: Vec<S> = ["a", "L", "La", "a/b", "LL", "A$B", "I", "Ü"].iter().map(|x| s(x)).collect();
+		// JavaString holds unpaired surrogates: a lone high surrogate, a low surrogate before a letter, a non-BMP letter
+		keys.push(vec![0xD83D]); keys.push(vec![0xDC00, 'a' as u32]); keys.push(vec![0x10400, 'L' as u32]);
 		let mut tbl: Vec<(S, S)> = vec![];
 		for _ in 0..rng.below(4) { tbl.push((rng.pick(&keys[..]).clone(), s(*rng.pick(&["b", "L", "x/y", "LL", "", ";", "a;L", "Lb;", "名"][..])))); }
 		let d: S = if i % 2 == 0 {
@@ -1330,6 +1534,13 @@ pub fn run(ctx: &Ctx) -> anyhow::Result<Report> {
 				let Ans::RStr(res) = &a else { unreachable!() };
 				r.eval(&format!("D{}|{:?}", gstr(&d), tbl), res.is_some() && d.contains(&('L' as u32)));
 				r.count(if res.is_some() { "map_desc_ok" } else { "map_desc_err" });
+				// oracle on ALL strings: the documented scanner (reference written over positions and slices)
+				{
+					let f = |n: &S| Some(tbl.iter().find(|(k, _)| k == n).map(|(_, v)| v.clone()).unwrap_or_else(|| n.clone()));
+					let want = ref_scan(&d, &f);
+					r.count("map_desc_all_strings_oracle");
+					if *res != want { let what = format!("map_desc({}) = {:?}, the documented scanner (every `L` starts a name that ends at the next `;`, `L;` and a missing `;` are errors) gives {:?}", show(&d), res.as_ref().map(|x| show(x)), want.as_ref().map(|x| show(x))); r.violation(what.clone(), format!("property C06\n{what}\ntable {:?}\n", tbl)); }
+				}
 				// oracle: on descriptors of the grammar the rewrite is parse -> map -> print, for any class map
 				if ref_desc_names(&d).is_some() {
 					let f = |n: &S| tbl.iter().find(|(k, _)| k == n).map(|(_, v)| v.clone()).unwrap_or_else(|| n.clone());
@@ -1341,6 +1552,7 @@ pub fn run(ctx: &Ctx) -> anyhow::Result<Report> {
 			}
 		}
 	}
+	trait_stream(&mut r, &mut rng, if ctx.thorough { 3000 } else { 300 });
 	balance(&mut r, if ctx.thorough { 64 } else { 16 });
 	Ok(r)
 }
